@@ -12,6 +12,10 @@ H.append({"name":"H_overlay","tiers":Q,"scale":"w8","bounds":"W=8, T=2: old,new 
   "param_sets":grid([0,5,9,10],[0,5,9,10],[(0,0,0),(3,1,2)])})
 H.append({"name":"H_overlay","tiers":Q,"scale":"w4","bounds":"W=4,T=1: a session resumed from a checkpoint taken before the first write (and for an empty new file), old,new in 0..5",
   "param_sets":[dict(p,pre=1) for p in grid(range(0,6),range(0,6),[(0,0,0),(2,1,1)])]})
+H.append({"name":"H_bowl","tiers":Q,"scale":"w4","bounds":"W=4,T=1 through the overlay BOWL's entry writer (GetWriter / Resume / Write / Save / Finalize / Commit, checkpoints through gob into a brand-new bowl): old,new fully symbolic in {3,6,9}, 3-byte and 2-byte writes, resume after the 1st or 2nd write or never",
+  "param_sets":[{"nold":a,"nnew":b,"chunk":c,"resume":r} for a in (3,6,9) for b in (3,6,9) for (c,r) in ((3,0),(3,1),(3,2),(2,2))]})
+H.append({"name":"H_bowl","tiers":Q,"scale":"w4","bounds":"the same with a 96-byte concrete old file and 5..6 symbolic new bytes after the resume point (equal to any stretch of the old file if the solver wants)",
+  "param_sets":[{"nold":96,"nnew":n,"chunk":3,"resume":1,"long":1} for n in (8,9)]+[{"nold":96,"nnew":9,"chunk":2,"resume":2,"long":1}]})
 H.append({"name":"H_overlay","tiers":T,"scale":"w4","bounds":"W=4,T=1: every old,new in 0..2W+3, chunk in {1,2,3,5,all}, flush in {0,1,2}, resume in {0,1,2}","max_seconds":1200,
   "param_sets":grid(range(0,12),range(0,12),[(c,f,r) for c in (0,1,2,3,5) for f in (0,1,2) for r in (0,1,2) if not (f==0 and r>0)])})
 H.append({"name":"H_overlay","tiers":T,"scale":"w6","bounds":"W=6,T=1: old,new 0..W+3, chunk in {1,4,7,all}","max_seconds":1200,
